@@ -1301,6 +1301,8 @@ impl WalkParallel {
                 handle.join().unwrap();
             }
         });
+        #[cfg(feature = "verif-hooks")]
+        crate::verif::done();
     }
 
     fn threads(&self) -> usize {
@@ -1402,6 +1404,8 @@ impl Stack {
     /// correspond to the initial paths to start the search at. They will
     /// be distributed automatically to each stack in a round-robin fashion.
     fn new_for_each_thread(threads: usize, init: Vec<Message>) -> Vec<Stack> {
+        #[cfg(feature = "verif-hooks")]
+        crate::verif::init(threads);
         // Using new_lifo() ensures each worker operates depth-first, not
         // breadth-first. We do depth-first because a breadth first traversal
         // on wide directories with a lot of gitignores is disastrous (for
@@ -1429,11 +1433,15 @@ impl Stack {
 
     /// Push a message.
     fn push(&self, msg: Message) {
+        #[cfg(feature = "verif-hooks")]
+        crate::verif::point(crate::verif::Point::Push);
         self.deque.push(msg);
     }
 
     /// Pop a message.
     fn pop(&self) -> Option<Message> {
+        #[cfg(feature = "verif-hooks")]
+        crate::verif::point(crate::verif::Point::Pop);
         self.deque.pop().or_else(|| self.steal())
     }
 
@@ -1448,7 +1456,18 @@ impl Stack {
         right
             .iter()
             .chain(left.iter())
-            .map(|s| s.steal_batch_and_pop(&self.deque))
+            .map(|s| {
+                #[cfg(feature = "verif-hooks")]
+                if crate::verif::point(crate::verif::Point::Steal) {
+                    return crossbeam_deque::Steal::Retry;
+                }
+                let stolen = s.steal_batch_and_pop(&self.deque);
+                #[cfg(feature = "verif-hooks")]
+                if stolen.is_success() {
+                    crate::verif::steal_succeeded();
+                }
+                stolen
+            })
             .find_map(|s| s.success())
     }
 }
@@ -1496,11 +1515,15 @@ impl<'s> Worker<'s> {
     /// The worker will call the caller's callback for all entries that aren't
     /// skipped by the ignore matcher.
     fn run(mut self) {
+        #[cfg(feature = "verif-hooks")]
+        crate::verif::start(self.stack.index);
         while let Some(work) = self.get_work() {
             if let WalkState::Quit = self.run_one(work) {
                 self.quit_now();
             }
         }
+        #[cfg(feature = "verif-hooks")]
+        crate::verif::point(crate::verif::Point::Exit);
     }
 
     fn run_one(&mut self, mut work: Work) -> WalkState {
@@ -1702,6 +1725,10 @@ impl<'s> Worker<'s> {
                         // CPU waiting, we let the thread sleep for a bit. In
                         // general, this tends to only occur once the search is
                         // approaching termination.
+                        #[cfg(feature = "verif-hooks")]
+                        if crate::verif::point(crate::verif::Point::Idle) {
+                            continue;
+                        }
                         let dur = std::time::Duration::from_millis(1);
                         std::thread::sleep(dur);
                     }
@@ -1712,11 +1739,15 @@ impl<'s> Worker<'s> {
 
     /// Indicates that all workers should quit immediately.
     fn quit_now(&self) {
+        #[cfg(feature = "verif-hooks")]
+        crate::verif::point(crate::verif::Point::QuitNow);
         self.quit_now.store(true, AtomicOrdering::SeqCst);
     }
 
     /// Returns true if this worker should quit immediately.
     fn is_quit_now(&self) -> bool {
+        #[cfg(feature = "verif-hooks")]
+        crate::verif::point(crate::verif::Point::IsQuitNow);
         self.quit_now.load(AtomicOrdering::SeqCst)
     }
 
@@ -1737,11 +1768,15 @@ impl<'s> Worker<'s> {
 
     /// Deactivates a worker and returns the number of currently active workers.
     fn deactivate_worker(&self) -> usize {
+        #[cfg(feature = "verif-hooks")]
+        crate::verif::point(crate::verif::Point::Deactivate);
         self.active_workers.fetch_sub(1, AtomicOrdering::Acquire) - 1
     }
 
     /// Reactivates a worker.
     fn activate_worker(&self) {
+        #[cfg(feature = "verif-hooks")]
+        crate::verif::point(crate::verif::Point::Activate);
         self.active_workers.fetch_add(1, AtomicOrdering::Release);
     }
 }
